@@ -64,6 +64,10 @@ type c05Case struct {
 	All   bool             `json:"all,omitempty"`   // also enumerate every prefix and every site corruption
 	Bomb  *c05Bomb         `json:"bomb,omitempty"`  // a nested count bomb instead of mutations
 	Scale *c05Scale        `json:"scale,omitempty"` // a time-scaling measurement instead of mutations
+	// Deep: a message for a curated recursive type nested by a drawn mixture of structs, lists, sets
+	// and maps, to a depth around and beyond the decoder's bound, whole or cut to Cut/16 of its length
+	Deep *c15Case `json:"deep,omitempty"`
+	Cut  int      `json:"cut,omitempty"`
 }
 
 type c05Bomb struct {
@@ -88,6 +92,21 @@ func genC05(t *rapid.T) c05Case {
 		b := &c05Bomb{Shape: rapid.IntRange(0, len(c05Bombs)-1).Draw(t, "bombshape"), Depth: rapid.SampledFrom([]int{2, 3, 5, 10, 40, 100, 200, 300}).Draw(t, "bombdepth"),
 			Pad: rapid.SampledFrom([]int{0, 16, 256, 2048, 8192, 30000}).Draw(t, "bombpad")}
 		return c05Case{S: core.LookupSpec(c05Bombs[b.Shape].typ), Bomb: b}
+	}
+	if rapid.IntRange(0, 24).Draw(t, "deep") == 0 {
+		d := genC15(t)
+		d.Width = 0
+		switch m := rapid.IntRange(0, 5).Draw(t, "deepband"); {
+		case m < 3 || d.Depth > 3000:
+			// every residue of the decoder's per-level accounting occurs among consecutive depths
+			d.Depth = rapid.IntRange(900, 2600).Draw(t, "deepdepth")
+		case m == 3:
+			d.Depth = rapid.IntRange(30, 70).Draw(t, "deepshallow")
+		}
+		if d.UnknownAt > d.Depth {
+			d.UnknownAt = d.Depth
+		}
+		return c05Case{S: core.LookupSpec(d.Type), Deep: &d, Cut: rapid.SampledFrom([]int{0, 0, 0, 0, 3, 8, 9, 13, 15}).Draw(t, "deepcut")}
 	}
 	cfg := c05Cfg()
 	tv := genTV(cfg)(t)
@@ -424,6 +443,15 @@ func (r *c05Runner) run(c c05Case) *Failure {
 	}
 	if c.Bomb != nil {
 		return r.one(c.S, buildBomb(c05Bombs[c.Bomb.Shape], c.Bomb.Depth, c.Bomb.Pad), k, "count-bomb")
+	}
+	if c.Deep != nil {
+		msg, _ := buildDeep(*c.Deep)
+		what := "deep"
+		if c.Cut > 0 {
+			msg = msg[:len(msg)*c.Cut/16]
+			what = "deep-cut"
+		}
+		return r.one(core.LookupSpec(c.Deep.Type), msg, k, what)
 	}
 	lens, types := collectSites(c.Base)
 	for _, m := range c.Muts {
